@@ -50,6 +50,8 @@ __all__ = [
 import logging
 import datetime
 import http.cookiejar
+import os
+import tempfile
 import uuid
 import xml.etree.ElementTree as ET
 import urllib.request as urllib_request
@@ -536,10 +538,13 @@ class OFXClient:
             dtprofup_server = proftrnrs.profrs.dtprofup
             assert dtprofup is None or dtprofup <= dtprofup_server
 
-            # Cache the updated PROFRS sent by the server
+            # Cache the updated PROFRS sent by the server.  Write it to a temporary
+            # file and rename that into place, so that neither a crash nor a
+            # concurrent request_profile() ever leaves (or sees) a partial cache.
             response.seek(0)
-            with open(persistpath, "wb") as f:
+            with tempfile.NamedTemporaryFile(dir=persistdir, delete=False) as f:
                 f.write(response.read())
+            os.replace(f.name, persistpath)
 
         # Rewind PROFRS so it can be returned cleanly after having been parsed.
         response.seek(0)
